@@ -235,6 +235,8 @@ class Gen:
         elif k == "fill":
             d, t = r.below(NSLOT), self.pick_slot()
             n = r.weighted([(2, 3), (7, 3), (64, 2), (300, 1)])
+            if n > 7 and S[t] is not None and S[t].kind in ("arr", "cls", "map", "unknown"):
+                n = 7       # no wide fan-out over containers: copy() / sprintf("%O") of the result would be exponential
             c = self.new("arr", n)
             for i in range(min(n, 8)):
                 c.items[i] = S[t]
@@ -440,7 +442,7 @@ class C06(Prop):
 
     def run_impl(self, ctx, cases):
         # generous per-case limit: the heavy cases (65 537 clones, 70 000 holders) must not depend on machine speed
-        return E.run_harness(self.exe, self.conf, cases, ctx.rundir, timeout=3600, args=("--timeout", "900"))
+        return E.run_harness(self.exe, self.conf, cases, ctx.rundir, timeout=3600, args=("--timeout", "300"))
 
     def canon(self, lines):
         out = []
